@@ -25,7 +25,11 @@ def run_property(prop: str, program: Program, tier: str = "quick") -> Check:
     check = Check(prop, program, tier)
     check.explanation = getattr(mod, "EXPLANATION", "")
     check.assumptions = list(getattr(mod, "ASSUMPTIONS", []))
-    mod.run(check)
+    try:
+        mod.run(check)
+    except AnalysisError as ex:
+        # a definite violation established before the analysis got stuck stays a violation; without one the run is an analysis error
+        check.incomplete = str(ex)
     return check
 
 
@@ -44,6 +48,15 @@ def main(argv: list[str] | None = None) -> int:
         program = Program(args.root)
         check = run_property(prop, program, args.tier)
         mod = rules_module(prop)
+        incomplete = getattr(check, "incomplete", None)
+        if incomplete is not None:
+            from .report import load_known
+
+            known = {(k["property"], f"{k['rule']}/{k['construct']}") for k in load_known().get("known", [])}
+            if not any(o.status == "violation" and (prop, o.key) not in known for o in check.obligations):
+                raise AnalysisError(incomplete)
+            print(f"ANALYSIS-INCOMPLETE property={prop}: {incomplete} (the violations below were established before that point)")
+            check.notes.append(f"analysis incomplete: {incomplete}")
         selftest = None
         if args.tier == "thorough" and not args.replay:
             from . import selftest as st
